@@ -360,34 +360,8 @@ def loss_len(ctx, facts, rb):
 
 
 # ---------------------------------------------------------------------------------------------
-def edge_guards(b):
-    """[(target_bb, fact)] facts established on switch edges; fact = (op, lhs_expr, rhs_expr) normalised to hold on the edge"""
-    NEG = {"Lt": "Ge", "Le": "Gt", "Gt": "Le", "Ge": "Lt", "Eq": "Ne", "Ne": "Eq"}
-    out = []
-    for bb in sorted(b.live_blocks()):
-        t = b.term(bb)
-        if t["k"] != "switch":
-            continue
-        ed = flow.switch_edges(b, bb)
-        if ed is None:
-            continue
-        e = flow.expr_of(b, t["o"])
-        neg = False
-        while e[0] == "un" and e[1] == "Not":
-            neg, e = not neg, e[2]
-        z, nz = ed if not neg else (ed[1], ed[0])
-        if e[0] == "bin" and e[1] in NEG:
-            out.append((nz, (e[1], flow.strip_casts(e[2]), flow.strip_casts(e[3]))))
-            out.append((z, (NEG[e[1]], flow.strip_casts(e[2]), flow.strip_casts(e[3]))))
-        elif e[0] == "call":
-            out.append((nz, ("true", e, None)))
-            out.append((z, ("false", e, None)))
-    return out
-
-
-def holds(b, dom, bb, pred):
-    """some edge fact satisfying pred dominates bb"""
-    return any(flow.dominates(dom, tgt, bb) and pred(f) for tgt, f in edge_guards(b))
+edge_guards = flow.edge_guards
+holds = flow.holds
 
 
 def total(ctx, facts):
